@@ -302,8 +302,8 @@ static const calib_t* calibrate(const obj_t* o, const job_t* j, const cfile_t* v
 
 // ------------------------------------------------------------ per-job state
 
-#define DST_CAP (256u * 1024u)
-#define TOK_CAP 4096u
+#define DST_CAP (16u * 1024u)
+#define TOK_CAP 512u
 
 typedef struct {
   const obj_t* o;
@@ -738,13 +738,32 @@ static void run_job(const job_t* j) {
   r.sz = o->size();
   r.obj = (uint8_t*)malloc(r.sz);
   memset(r.obj, j->mem_garbage ? 0xA5 : 0, r.sz);
-  r.dbuf = (uint8_t*)malloc(DST_CAP);
+  // the caller's buffers live as long as the process; every job starts with them filled with 0xA5
+  static uint8_t* s_dbuf = NULL;
+  static wuffs_base__token* s_tbuf = NULL;
+  static uint8_t* s_wb = NULL;
+  static size_t s_wb_cap = 0;
+  static uint8_t* s_pix = NULL;
+  static size_t s_pix_cap = 0;
+  if (!s_dbuf) s_dbuf = (uint8_t*)malloc(DST_CAP);
+  if (!s_tbuf) s_tbuf = (wuffs_base__token*)malloc(TOK_CAP * sizeof(wuffs_base__token));
+  if (s_wb_cap < cal->wb_len + 1) {
+    free(s_wb);
+    s_wb_cap = cal->wb_len + 1;
+    s_wb = (uint8_t*)malloc(s_wb_cap);
+  }
+  if (s_pix_cap < cal->pix_len) {
+    free(s_pix);
+    s_pix_cap = cal->pix_len;
+    s_pix = (uint8_t*)malloc(s_pix_cap);
+  }
+  r.dbuf = s_dbuf;
   memset(r.dbuf, 0xA5, DST_CAP);
-  r.tbuf = (wuffs_base__token*)malloc(TOK_CAP * sizeof(wuffs_base__token));
+  r.tbuf = s_tbuf;
   memset(r.tbuf, 0xA5, TOK_CAP * sizeof(wuffs_base__token));
-  r.wb = (uint8_t*)malloc(cal->wb_len ? cal->wb_len : 1);
-  memset(r.wb, 0xA5, cal->wb_len ? cal->wb_len : 1);
-  r.pix = (uint8_t*)malloc(cal->pix_len);
+  r.wb = s_wb;
+  memset(r.wb, 0xA5, cal->wb_len + 1);
+  r.pix = s_pix;
   memset(r.pix, 0xA5, cal->pix_len);
   stream_reset(&r);
   arm_budget(j->budget_ms);
@@ -768,11 +787,6 @@ static void run_job(const job_t* j) {
   arm_budget(0);
   fprintf(g_ev, "{\"j\":%ld,\"k\":\"end\",\"stop\":\"done\",\"calls\":%d}\n", j->id, j->nsteps);
   free(r.obj);
-  free(r.dbuf);
-  free(r.tbuf);
-  free(r.wb);
-  free(r.pix);
-  fflush(g_ev);
 }
 
 int main(int argc, char** argv) {
@@ -795,6 +809,8 @@ int main(int argc, char** argv) {
     if (line[0] == '#' || line[0] == '\n') continue;
     if (!parse_job(line, &j)) continue;
     // announce the job first: if a sanitizer aborts the process the runner knows which job was in flight
+    // (the flush is what makes the line survive a crash; it also bounds what a crash can lose to this job)
+    fflush(g_ev);
     fprintf(g_ev, "{\"j\":%ld,\"k\":\"start\"}\n", j.id);
     fflush(g_ev);
     run_job(&j);
